@@ -369,10 +369,10 @@ def run_check(pid, cfg, tier, seed, args, t0):
     for oid, rp, suffix in violations:
         print('failed obligation: %s' % oid)
         print('VIOLATION property=%s replay=%s%s' % (pid, os.path.join(ROOT, rp), suffix))
-    if engine_errors:
-        return 3
     if violations:
         return 1
+    if engine_errors:
+        return 3
     if undecided:
         return 2
     return 0
